@@ -55,28 +55,41 @@ Section Pages.
 
   Record st := { num : nat; index_off : nat; arr : list slot }.
 
-  (* `nodefi`: the page came back without definition levels (required column, or the skip_nulls shortcut);
-     then val holds every row *)
-  Definition page_rows (nodefi : bool) (pg : page) : nat :=
-    if nodefi then List.length (vals_of pg) else List.length (defi_of pg).
+  (* how a data page reaches the loop:
+       V1nodefi  v1 page that came back without definition levels (required column, or the skip_nulls
+                 shortcut): val holds every row;
+       V1defi    v1 page with definition levels: defi per row, val only the non-null values;
+       V2        v2 page: its row count is in the header; with a mask the whole page is decoded into a
+                 temporary and the selected rows are copied *)
+  Inductive pkind := V1nodefi | V1defi | V2.
+  Definition page_rows (k : pkind) (pg : page) : nat :=
+    match k with
+    | V1nodefi => List.length (vals_of pg)
+    | V1defi => List.length (defi_of pg)
+    | V2 => List.length pg
+    end.
+  Definition page_piece (k : pkind) (page_filter : list bool) (pg : page) : list cellv :=
+    match k with
+    | V1nodefi => map Some (select page_filter (vals_of pg))
+    | V1defi => scatter (select page_filter (defi_of pg)) (select (select (defi_of pg) page_filter) (vals_of pg))
+    | V2 => select page_filter pg
+    end.
 
   (* one iteration of the `while num < rows` loop of the REPAIRED read_col, mask given *)
-  Definition page_step (row_filter : list bool) (s : st) (p : bool * page) : option st :=
+  Definition page_step (row_filter : list bool) (s : st) (p : pkind * page) : option st :=
     let '(nodefi, pg) := p in
     let nrows := page_rows nodefi pg in
     let page_filter := slice (index_off s) nrows row_filter in
     let io := index_off s + nrows in
     if count_true page_filter =? 0 then Some {| num := num s; index_off := io; arr := arr s |}
     else
-      let piece :=
-        if nodefi then map Some (select page_filter (vals_of pg))
-        else scatter (select page_filter (defi_of pg)) (select (select (defi_of pg) page_filter) (vals_of pg)) in
+      let piece := page_piece nodefi page_filter pg in
       match write_at (num s) piece (arr s) with
       | Some a => Some {| num := num s + List.length piece; index_off := io; arr := a |}
       | None => None
       end.
 
-  Fixpoint read_pages (rows : nat) (row_filter : list bool) (s : st) (pages : list (bool * page)) : option st :=
+  Fixpoint read_pages (rows : nat) (row_filter : list bool) (s : st) (pages : list (pkind * page)) : option st :=
     match pages with
     | [] => Some s
     | p :: r => if rows <=? num s then Some s
@@ -84,16 +97,16 @@ Section Pages.
     end.
 
   (* read_col(column, assign = uninitialised array of row_filter.sum() slots, row_filter) *)
-  Definition read_col_masked (row_filter : list bool) (pages : list (bool * page)) : option (list slot) :=
+  Definition read_col_masked (row_filter : list bool) (pages : list (pkind * page)) : option (list slot) :=
     let rows := count_true row_filter in
     match read_pages rows row_filter {| num := 0; index_off := 0; arr := repeat Uninit rows |} pages with
     | Some s => Some (arr s)
     | None => None
     end.
 
-  (* the same loop on the pinned tree: window and new offset from len(val), nothing-selected pages
-     advance the OUTPUT position and leave the mask offset where it was *)
-  Definition page_step_pinned (row_filter : list bool) (s : st) (p : bool * page) : option st :=
+  (* the same loop on the pinned tree (v1 pages): window and new offset from len(val), nothing-selected
+     pages advance the OUTPUT position and leave the mask offset where it was *)
+  Definition page_step_pinned (row_filter : list bool) (s : st) (p : pkind * page) : option st :=
     let '(nodefi, pg) := p in
     let nval := List.length (vals_of pg) in
     let nrows := page_rows nodefi pg in
@@ -102,22 +115,20 @@ Section Pages.
     then Some {| num := num s + nrows; index_off := index_off s; arr := arr s |}
     else
       let pf := slice (index_off s) nrows row_filter in
-      let piece :=
-        if nodefi then map Some (select pf (vals_of pg))
-        else scatter (select pf (defi_of pg)) (select (select (defi_of pg) pf) (vals_of pg)) in
+      let piece := page_piece nodefi pf pg in
       match write_at (num s) piece (arr s) with
       | Some a => Some {| num := num s + List.length piece; index_off := io; arr := a |}
       | None => None
       end.
 
-  Fixpoint read_pages_pinned (rows : nat) (row_filter : list bool) (s : st) (pages : list (bool * page)) : option st :=
+  Fixpoint read_pages_pinned (rows : nat) (row_filter : list bool) (s : st) (pages : list (pkind * page)) : option st :=
     match pages with
     | [] => Some s
     | p :: r => if rows <=? num s then Some s
                 else match page_step_pinned row_filter s p with Some s' => read_pages_pinned rows row_filter s' r | None => None end
     end.
 
-  Definition read_col_masked_pinned (row_filter : list bool) (pages : list (bool * page)) : option (list slot) :=
+  Definition read_col_masked_pinned (row_filter : list bool) (pages : list (pkind * page)) : option (list slot) :=
     let rows := count_true row_filter in
     match read_pages_pinned rows row_filter {| num := 0; index_off := 0; arr := repeat Uninit rows |} pages with
     | Some s => Some (arr s)
@@ -127,6 +138,7 @@ End Pages.
 
 Arguments Uninit {V}.
 Arguments W {V} c.
+
 
 (* ---------- _column_filter and the two-pass read ------------------------------------------------ *)
 
